@@ -21,7 +21,9 @@ func init() {
 
 var errInjected = errors.New("injected read error")
 
-// tailReader delivers data in chunks and then reports io.EOF or errInjected for ever.
+// tailReader delivers data in chunks and then reports io.EOF or errInjected for ever.  A negative
+// chunk size means: chunks of that size, and the last bytes are returned TOGETHER with io.EOF
+// (legal for an io.Reader; network and wrapping readers do it).
 type tailReader struct {
 	data  []byte
 	chunk int
@@ -37,8 +39,12 @@ func (t *tailReader) Read(p []byte) (int, error) {
 		return 0, io.EOF
 	}
 	n := len(p)
-	if t.chunk > 0 && n > t.chunk {
-		n = t.chunk
+	chunk := t.chunk
+	if chunk < 0 {
+		chunk = -chunk
+	}
+	if chunk > 0 && n > chunk {
+		n = chunk
 	}
 	if n > len(t.data) {
 		n = len(t.data)
@@ -46,6 +52,9 @@ func (t *tailReader) Read(p []byte) (int, error) {
 	copy(p, t.data[:n])
 	t.data = t.data[n:]
 	t.read += n
+	if t.chunk < 0 && len(t.data) == 0 && !t.bad {
+		return n, io.EOF
+	}
 	return n, nil
 }
 
